@@ -1,6 +1,7 @@
 package main
 
 import (
+	"fmt"
 	"go/token"
 	"go/types"
 
@@ -27,6 +28,7 @@ type FG struct {
 	inl     map[int]bool // call nodes whose callee's body is spliced in behind them (see inline.go)
 	psub    map[*ssa.Parameter]ssa.Value
 	csub    map[*ssa.Call][]ssa.Value
+	csubM   map[*ssa.Call][][]ssa.Value // helpers with several returns: every result tuple
 }
 
 type Edge struct{ from, to int }
@@ -278,6 +280,60 @@ type Fact struct {
 // FactsAt returns the branch conditions that are decided on every path to node n
 // (for the most recent evaluation of the condition).
 func (g *FG) FactsAt(n int) []Fact {
+	var out []Fact
+	for i, in := range g.ins {
+		iff, ok := in.(*ssa.If)
+		if !ok {
+			continue
+		}
+		te, _ := g.EdgeOf(i, true)
+		fe, _ := g.EdgeOf(i, false)
+		if te.to == fe.to {
+			continue
+		}
+		if g.OnlyVia([]Edge{te}, n) {
+			out = append(out, normFact(iff.Cond, true))
+		} else if g.OnlyVia([]Edge{fe}, n) {
+			out = append(out, normFact(iff.Cond, false))
+		}
+	}
+	// a named short-circuit result: b := x && y is phi(false, y) — b true means y true and
+	// everything that guards the evaluation of y (x); b := x || y is phi(true, y) — b false likewise
+	for depth, from := 0, 0; depth < 3 && from < len(out); depth++ {
+		end := len(out)
+		for _, f := range out[from:end] {
+			ph, ok := f.Cond.(*ssa.Phi)
+			if !ok {
+				continue
+			}
+			var other ssa.Value
+			var pred *ssa.BasicBlock
+			good := true
+			for j, e := range ph.Edges {
+				if k, isK := e.(*ssa.Const); isK && k.Value != nil && k.Value.ExactString() == fmt.Sprint(!f.Val) {
+					continue
+				}
+				if other != nil {
+					good = false
+				}
+				other, pred = e, ph.Block().Preds[j]
+			}
+			if !good || other == nil || pred == nil {
+				continue
+			}
+			out = append(out, normFact(other, f.Val))
+			if last := g.first[pred] + len(pred.Instrs) - 1; last != n {
+				for _, pf := range g.factsAtNoExpand(last) {
+					out = append(out, pf)
+				}
+			}
+		}
+		from = end
+	}
+	return out
+}
+
+func (g *FG) factsAtNoExpand(n int) []Fact {
 	var out []Fact
 	for i, in := range g.ins {
 		iff, ok := in.(*ssa.If)
